@@ -239,6 +239,8 @@ def ops_for(kind, desc):
             'round_trip_yaml': lambda o: dl.deserialize(dl.serialize(o['doc'], 'yaml'), 'yaml'),
             'dictify_all': lambda o: dl.dictify_all_complex_values(o['doc']),
             'undictify_circuit': lambda o: cdl.undictify_circuit(o['cdoc']),
+            'circuit_from_yaml_text': lambda o: cdl.deserialize('components:\n- {id: R1, type: resistor, nodes: [\'1\', \'0\'], value: {R: 10.0}}\n- {id: Vq, type: dc_voltage_source, nodes: [\'1\', \'0\'], value: {V: 2.5}}\n', 'yaml'),
+            'yaml_text_with_number_like_strings': lambda o: dl.deserialize('R: 1e3\nid: 2E5\nlist: [4E-2, abc]\n', 'yaml'),
             'generate_component': lambda o: cdl.generate_component(o['cdoc']['components'][0]),
         }
     if kind == 'schem':
@@ -438,6 +440,23 @@ def judge(case, ctx, prefix='C20'):
     for k, d in enumerate(pool):
         if d['kind'] == 'circ':
             results_are_the_callers(Item(copy.deepcopy(d)), ctx, prefix)
+        if d['kind'] == 'wave':
+            # the same instants (quarter periods of a waveform without phase shift: its edges and corners) asked again after unrelated
+            # arrays of the same size were created and released: an answer must not be made of whatever memory happens to hold
+            from CircuitCalculator.SignalProcessing.periodic_functions import periodic_function
+            pf = call(lambda: periodic_function(d['wave'])(period=d['period'], amplitude=d['amplitude'], phase=0.0, offset=d['offset']))
+            if not raised(pf):
+                te = np.arange(0, 9) * d['period'] / 4
+                y1 = call(pf.time_function, te.copy())
+                for fill in (1234.5, -987.25):
+                    junk = np.full(te.shape, fill); junk2 = np.full(te.shape, fill, dtype=float) * 1.0
+                    del junk, junk2
+                y2 = call(pf.time_function, te.copy())
+                ctx.count('waveforms_re_evaluated_after_unrelated_allocations')
+                lo, hi = d['offset'] - abs(d['amplitude']), d['offset'] + abs(d['amplitude'])
+                bad = raised(y1) != raised(y2) or (not raised(y1) and (same(canon(y1), canon(y2)) or (d['wave'] != 'const' and (float(np.min(y1)) < lo - 1e-9 * (abs(lo) + abs(hi) + 1e-300) or float(np.max(y1)) > hi + 1e-9 * (abs(lo) + abs(hi) + 1e-300)))))
+                if bad:
+                    ctx.violation(f'{prefix}/result-depends-on-unrelated-work/time_function/{d["wave"]}', f'{d["wave"]} waveform at its quarter periods: {y1!r} the first time, {y2!r} after unrelated arrays were created and released (range of the waveform [{lo!r}, {hi!r}])', {})
     ctx.sample({'pool_kinds': [d['kind'] for d in pool], 'history_head': log[:12], 'length': case['length']})
 
 
